@@ -100,6 +100,7 @@ class FakeConnection:
         self.checking = False
         self.nominated = False
         self.closed = False
+        self._wake = asyncio.Event()     # set by close(): a connect() in progress fails at once, as aioice's does
         self.peer = None
         self.queue = asyncio.Queue()
         self._event_waiter = None
@@ -165,7 +166,10 @@ class FakeConnection:
                 return
             if loop.time() >= deadline:
                 raise ConnectionError("ICE negotiation failed")
-            await asyncio.sleep(0.02)
+            try:
+                await asyncio.wait_for(self._wake.wait(), 0.02)
+            except asyncio.TimeoutError:
+                pass
 
     # ---- data
     async def recv(self):
@@ -204,6 +208,7 @@ class FakeConnection:
         self._local = []
         if not self.closed:
             self.closed = True
+            self._wake.set()
             self.queue.put_nowait(None)
             self._emit(aioice.ConnectionClosed())
 
